@@ -30,7 +30,7 @@ Spec == Init /\ [][Next]_vars
 Bound == TLCGet("level") <= Depth
 
 (* ---- C01: DDM refines the lifecycle contract ---- *)
-LC == INSTANCE Lifecycle WITH RestartTo <- 1, Incs <- {1}, HasRecs <- TRUE, EpochBound <- TRUE,
+LC == INSTANCE Lifecycle WITH RestartTo <- 1, Incs <- {1}, HasRecs <- TRUE, EpochBound <- TRUE, RefRestart <- FALSE,
                               state <- st, warm <- (since >= cfg.nthr)
 LCSpec == LC!Spec
 TypeOK == LC!TypeOK
